@@ -152,13 +152,13 @@ CHECKS.update({
 })
 CHECKS.update({
  "C19": dict(
-   category="model_checking", design_ref="4 (C19)", technique="TLC exhaustive scaled mixer model + TLC validation of per-frame sample runs of the real emulator",
+   category="model_checking", design_ref="4 (C19)", technique="TLC exhaustive scaled mixer model + TLAPS proof of the cursor arithmetic for all frame lengths and rates + TLC validation of per-frame sample runs of the real emulator",
    text=("Mixer.tla models the mixer in exact integers (queue, in-frame cursor, latched speaker level; process on every clock advance, padding at frame "
          "end, host drain). MC_Mixer explores every partition of two scaled frames into clock steps with speaker writes at any step under drain "
          "policies always/never/any and checks: exactly spf samples per drained frame, each sample carries a level that was in force within one sample "
-         "period of its time, queue < 2 spf. On the real emulator bits 3/4 of port 0xFE are toggled at chosen T-states for rates 8000..384000, volumes, "
+         "period of its time, queue < 2 spf. MixerProofs.tla proves with TLAPS, for every frame length and rate, that the sample cursor is 0 / spf at the frame ends, bounded, monotone, and that an edge lands inside the EdgeOk window. On the real emulator bits 3/4 of port 0xFE are toggled at chosen T-states for rates 8000..384000, volumes, "
          "AY on/off, both machines and three drain policies; MixerTrace judges count, finiteness, the volume bound, and the position of every edge."),
-   note="Trusted: TLC, the clock hook, the mapping of sample values to the four speaker/MIC levels (beeper-only configurations). Sampling over write plans."),
+   note="Trusted: TLC, tlapm with its SMT/Zenon back ends, the clock hook, the mapping of sample values to the four speaker/MIC levels (beeper-only configurations). Sampling over write plans."),
 })
 CHECKS.update({
  "C18": dict(
